@@ -66,6 +66,20 @@ func VerifHarness_C08() {
 	if verifShape(5) == 1 {
 		w.priorScan(g)
 	}
+	if verifShape(6) == 1 {
+		// an earlier scale-down scan in which one taint write was rejected (the node stays
+		// untainted on the API server); the scan under test then runs without failures
+		w.J.FailBudget = 1
+		_ = w.ctrl.RunOnce()
+		w.J.FailBudget = w.J.Failed
+		for _, e := range w.J.Calls {
+			if e.Kind == "NodeTaint" && e.OK {
+				if n := w.nodeByName(e.Node); n != nil {
+					n.class = tcEsc // what the API server now holds
+				}
+			}
+		}
+	}
 	mark := len(w.J.Calls)
 	_ = w.ctrl.RunOnce()
 	attempted, tainted := w.writeAttempts(mark, "NodeTaint")
